@@ -489,11 +489,125 @@ class OrientCompare(ast.NodeTransformer):
         return n
 
 
+
+def inline_bool_temps(fn):
+    """a local bound exactly once to a test (comparison / and / or / not) and read only afterwards in the same block stands for the test: `c = A and B; if c:` is
+    `if A and B:` -- provided nothing the test reads is assigned between the binding and the last use (checked coarsely: no store to any name or attribute the
+    test mentions anywhere later in the function)"""
+    stores = {}
+    for n in ast.walk(fn):
+        if isinstance(n, ast.Name) and isinstance(n.ctx, ast.Store):
+            stores[n.id] = stores.get(n.id, 0) + 1
+    cands = {}
+    for blk_owner in ast.walk(fn):
+        for fld in ('body', 'orelse'):
+            blk = getattr(blk_owner, fld, None)
+            if not (isinstance(blk, list) and blk and isinstance(blk[0], ast.stmt)):
+                continue
+            for k, st in enumerate(blk):
+                if isinstance(st, ast.Assign) and len(st.targets) == 1 and isinstance(st.targets[0], ast.Name) and stores.get(st.targets[0].id) == 1 \
+                        and isinstance(st.value, (ast.Compare, ast.BoolOp)) or (isinstance(st, ast.Assign) and len(st.targets) == 1 and isinstance(st.targets[0], ast.Name)
+                                                                               and stores.get(st.targets[0].id) == 1 and isinstance(st.value, ast.UnaryOp) and isinstance(st.value.op, ast.Not)):
+                    name = st.targets[0].id
+                    reads = {x.id for x in ast.walk(st.value) if isinstance(x, ast.Name)}
+                    attrs = {ast.unparse(x) for x in ast.walk(st.value) if isinstance(x, ast.Attribute)}
+                    later = blk[k + 1:]
+                    clobber = False
+                    use_idx = [i_ for i_, q in enumerate(later) if any(isinstance(x, ast.Name) and x.id == name and isinstance(x.ctx, ast.Load) for x in ast.walk(q))]
+                    last_use = use_idx[-1] if use_idx else -1
+                    # what lies strictly between the binding and the last statement that reads it (a simple statement evaluates its right-hand side, where the
+                    # reads are, before it stores)
+                    between = later[:last_use] + ([later[last_use]] if last_use >= 0 and not isinstance(later[last_use], (ast.Assign, ast.Expr, ast.Return, ast.If)) else [])
+                    if last_use >= 0 and isinstance(later[last_use], ast.If):
+                        # the test is evaluated first; stores inside the arms come after it -- unless the name is read again inside the arms
+                        inner = [x for b_ in later[last_use].body + later[last_use].orelse for x in ast.walk(b_) if isinstance(x, ast.Name) and x.id == name]
+                        if inner:
+                            between = between + [later[last_use]]
+                    for q in between:
+                        for x in ast.walk(q):
+                            if isinstance(x, ast.Name) and isinstance(x.ctx, ast.Store) and x.id in reads:
+                                clobber = True
+                            if isinstance(x, ast.Attribute) and isinstance(x.ctx, ast.Store) and ast.unparse(x) in attrs:
+                                clobber = True
+                            if isinstance(x, ast.Call) and isinstance(x.func, ast.Attribute) and x.func.attr in ('pop', 'append', 'insert', 'clear', 'extend', 'popleft', 'appendleft') \
+                                    and any(ast.unparse(x.func.value) in ast.unparse(st.value) for _ in (0,)):
+                                clobber = True
+                    uses = [x for q in later for x in ast.walk(q) if isinstance(x, ast.Name) and x.id == name and isinstance(x.ctx, ast.Load)]
+                    all_uses = [x for x in ast.walk(fn) if isinstance(x, ast.Name) and x.id == name and isinstance(x.ctx, ast.Load)]
+                    if uses and len(uses) == len(all_uses) and not clobber:
+                        cands[name] = (st, st.value)
+    if not cands:
+        return fn
+
+    class Sub(ast.NodeTransformer):
+        def visit_Name(self, n):
+            if isinstance(n.ctx, ast.Load) and n.id in cands:
+                return copy.deepcopy(cands[n.id][1])
+            return n
+    drop = {id(v[0]) for v in cands.values()}
+
+    def block(stmts):
+        out = []
+        for st in stmts:
+            if id(st) in drop:
+                continue
+            for fld in ('body', 'orelse', 'finalbody'):
+                b = getattr(st, fld, None)
+                if isinstance(b, list) and b and isinstance(b[0], ast.stmt):
+                    setattr(st, fld, block(b) or [ast.Pass()])
+            out.append(st)
+        return out
+    fn.body = block(fn.body)
+    fn = Sub().visit(fn)
+    ast.fix_missing_locations(fn)
+    return fn
+
+
+def split_ifexp_assign(fn):
+    """T = E[ X if c else Y ]  (one conditional expression in the value)   ->   if c: T = E[X] else: T = E[Y]"""
+    def block(stmts):
+        out = []
+        for st in stmts:
+            for fld in ('body', 'orelse', 'finalbody'):
+                b = getattr(st, fld, None)
+                if isinstance(b, list) and b and isinstance(b[0], ast.stmt):
+                    setattr(st, fld, block(b))
+            if isinstance(st, ast.Assign):
+                ifs = [x for x in ast.walk(st.value) if isinstance(x, ast.IfExp)]
+                if len(ifs) == 1 and not any(isinstance(x, (ast.Lambda, ast.ListComp, ast.GeneratorExp, ast.SetComp, ast.DictComp)) for x in ast.walk(st.value)):
+                    ie = ifs[0]
+
+                    def with_(arm):
+                        class R(ast.NodeTransformer):
+                            def visit_IfExp(self, n):
+                                return copy.deepcopy(arm) if n is ie2 else n
+                        cp = copy.deepcopy(st)
+                        ie2 = [x for x in ast.walk(cp.value) if isinstance(x, ast.IfExp)][0]
+                        arm_ = copy.deepcopy(ie2.body if arm == 'b' else ie2.orelse)
+
+                        class R2(ast.NodeTransformer):
+                            def visit_IfExp(self, n):
+                                return arm_ if n is ie2 else n
+                        cp.value = R2().visit(cp.value)
+                        return cp
+                    a, b = with_('b'), with_('o')
+                    node = ast.copy_location(ast.If(test=copy.deepcopy(ie.test), body=[a], orelse=[b]), st)
+                    out.append(node)
+                    continue
+            out.append(st)
+        return out
+    fn.body = block(fn.body)
+    ast.fix_missing_locations(fn)
+    return fn
+
+
 def normal_form(fn, dual=False, drop_self_attrs=(), abstract_slot=False, sort_init=False, keep=()):
     fn = copy.deepcopy(fn)
     fn.name = 'F'
     fn.decorator_list = []
     fn = strip_noise(fn)
+    fn = inline_bool_temps(fn)
+    fn = split_ifexp_assign(fn)
     fn = ExpandAugAssign().visit(fn)
     fn = Canon().visit(fn)
     fn = split_pops(fn)
